@@ -60,12 +60,12 @@ type childPlan struct {
 }
 
 type ackLine struct {
-	Entry    int
-	Version  uint64
-	Event    string
-	History  string
-	Hyper    string
-	Already  bool
+	Entry   int
+	Version uint64
+	Event   string
+	History string
+	Hyper   string
+	Already bool
 }
 
 func writeAck(f *os.File, entry int, snaps []*balloon.Snapshot, already bool) {
@@ -201,115 +201,124 @@ func readAcks(path string) []ackLine {
 
 func crashCmd(out *cq.Out, seed uint64, tier string) {
 	rng := cq.NewRng(seed)
-	m := 5
+	small := 5
 	if tier == "thorough" {
-		m = 16
+		small = 16
 	}
-	tag := "crash"
-	lg := genLog(cq.NewRng(seed), tag, m)
-	// reference: a node that never crashes
-	refDir, _ := os.MkdirTemp(out.Dir, "ref")
-	ref := openFSM(refDir + "/db0")
-	var refSnaps [][]*balloon.Snapshot
-	for _, e := range lg {
-		s, _ := ref.VApply(e.index, e.evs)
-		refSnaps = append(refSnaps, s)
-	}
-	refFP := tablesFP(ref.VStore())
-	ref.VCloseFSM()
-	points := 0
-	for k := 1; k <= m; k++ {
-		for _, after := range []bool{false, true} {
-			if tier != "thorough" && rng.Intn(3) == 0 && k > 1 && k < m {
-				continue
-			}
-			points++
-			dir, _ := os.MkdirTemp(out.Dir, "cp")
-			desc := map[string]interface{}{"seed": seed, "entries": m, "crash_at_write": k, "after_write": after}
-			_, err := runChild(out, childPlan{Dir: dir, Tag: tag, Entries: m, Seed: seed, From: 0, To: m, KillAt: k, After: after}, 0)
-			if err == nil {
-				out.Violate("C07:infrastructure-child-survived", "the child was not killed at the crash point", desc)
-				continue
-			}
-			acks := readAcks(dir + "/acks.jsonl")
-			ackedEntries := 0
-			for _, a := range acks {
-				if a.Entry+1 > ackedEntries {
-					ackedEntries = a.Entry + 1
+	for _, cfg := range []struct {
+		tag string
+		m   int
+	}{{"crash", small}, {"bigcrash", 6}} {
+		tag, m := cfg.tag, cfg.m
+		big := strings.HasPrefix(tag, "big")
+		lg := genLog(cq.NewRng(seed), tag, m)
+		// reference: a node that never crashes
+		refDir, _ := os.MkdirTemp(out.Dir, "ref")
+		ref := openFSM(refDir + "/db0")
+		var refSnaps [][]*balloon.Snapshot
+		for _, e := range lg {
+			s, _ := ref.VApply(e.index, e.evs)
+			refSnaps = append(refSnaps, s)
+		}
+		refFP := tablesFP(ref.VStore())
+		ref.VCloseFSM()
+		points := 0
+		for k := 1; k <= m; k++ {
+			for _, after := range []bool{false, true} {
+				if tier != "thorough" && rng.Intn(3) == 0 && k > 1 && k < m {
+					continue
 				}
-			}
-			// restart on the same directory
-			var n *consensus.RaftNode
-			panicked, msg := cq.Catch(func() { n = openFSM(dir + "/db") })
-			if panicked {
-				out.Violate("C07:restart-panic", "restart after the crash panicked: "+msg, desc)
-				continue
-			}
-			wantApplied := k - 1
-			if after {
-				wantApplied = k
-			}
-			var wantEvents uint64
-			for j := 0; j < wantApplied; j++ {
-				wantEvents += uint64(len(lg[j].evs))
-			}
-			if v := n.VBalloonVersion(); v != wantEvents {
-				out.Violate("C07:not-a-prefix", fmt.Sprintf("after a crash %s write %d the restarted node holds %d events; a prefix of the committed log has %d", map[bool]string{false: "before", true: "after"}[after], k, v, wantEvents), desc)
-			}
-			if ackedEntries > wantApplied {
-				out.Violate("C07:acknowledged-but-lost", fmt.Sprintf("%d entries were acknowledged before the crash, only %d are in the recovered state", ackedEntries, wantApplied), desc)
-			}
-			// raft replays from an index at or before the first unapplied entry
-			from := rng.Intn(wantApplied + 1)
-			ok := true
-			for j := from; j < m && ok; j++ {
-				var snaps []*balloon.Snapshot
-				var already bool
-				p, pm := cq.Catch(func() { snaps, already = n.VApply(lg[j].index, lg[j].evs) })
-				if p {
-					out.Violate("C07:replay-panic", "replay after the crash panicked: "+pm, desc)
-					ok = false
-					break
+				if big && k < m-1 {
+					continue // the large log is there for the restart with more than 1000 cache tiles: late crash points only
 				}
-				if already != (j < wantApplied) {
-					out.Violate("C07:replay-not-exactly-once", fmt.Sprintf("on replay entry %d was %s; %d entries were durable", j, map[bool]string{true: "skipped", false: "applied"}[already], wantApplied), desc)
-					ok = false
+				points++
+				dir, _ := os.MkdirTemp(out.Dir, "cp")
+				desc := map[string]interface{}{"seed": seed, "entries": m, "large_log": big, "crash_at_write": k, "after_write": after}
+				_, err := runChild(out, childPlan{Dir: dir, Tag: tag, Entries: m, Seed: seed, From: 0, To: m, KillAt: k, After: after}, 0)
+				if err == nil {
+					out.Violate("C07:infrastructure-child-survived", "the child was not killed at the crash point", desc)
+					continue
 				}
-				if !already {
-					for x, s := range snaps {
-						r := refSnaps[j][x]
-						if s.Version != r.Version || !bytes.Equal(s.HistoryDigest, r.HistoryDigest) || !bytes.Equal(s.HyperDigest, r.HyperDigest) {
-							out.Violate("C07:diverges-from-never-crashed", fmt.Sprintf("after recovery, the snapshot of entry %d event %d differs from the never-crashed node's (version %d vs %d)", j, x, s.Version, r.Version), desc)
-							ok = false
+				acks := readAcks(dir + "/acks.jsonl")
+				ackedEntries := 0
+				for _, a := range acks {
+					if a.Entry+1 > ackedEntries {
+						ackedEntries = a.Entry + 1
+					}
+				}
+				// restart on the same directory
+				var n *consensus.RaftNode
+				panicked, msg := cq.Catch(func() { n = openFSM(dir + "/db") })
+				if panicked {
+					out.Violate("C07:restart-panic", "restart after the crash panicked: "+msg, desc)
+					continue
+				}
+				wantApplied := k - 1
+				if after {
+					wantApplied = k
+				}
+				var wantEvents uint64
+				for j := 0; j < wantApplied; j++ {
+					wantEvents += uint64(len(lg[j].evs))
+				}
+				if v := n.VBalloonVersion(); v != wantEvents {
+					out.Violate("C07:not-a-prefix", fmt.Sprintf("after a crash %s write %d the restarted node holds %d events; a prefix of the committed log has %d", map[bool]string{false: "before", true: "after"}[after], k, v, wantEvents), desc)
+				}
+				if ackedEntries > wantApplied {
+					out.Violate("C07:acknowledged-but-lost", fmt.Sprintf("%d entries were acknowledged before the crash, only %d are in the recovered state", ackedEntries, wantApplied), desc)
+				}
+				// raft replays from an index at or before the first unapplied entry
+				from := rng.Intn(wantApplied + 1)
+				ok := true
+				for j := from; j < m && ok; j++ {
+					var snaps []*balloon.Snapshot
+					var already bool
+					p, pm := cq.Catch(func() { snaps, already = n.VApply(lg[j].index, lg[j].evs) })
+					if p {
+						out.Violate("C07:replay-panic", "replay after the crash panicked: "+pm, desc)
+						ok = false
+						break
+					}
+					if already != (j < wantApplied) {
+						out.Violate("C07:replay-not-exactly-once", fmt.Sprintf("on replay entry %d was %s; %d entries were durable", j, map[bool]string{true: "skipped", false: "applied"}[already], wantApplied), desc)
+						ok = false
+					}
+					if !already {
+						for x, s := range snaps {
+							r := refSnaps[j][x]
+							if s.Version != r.Version || !bytes.Equal(s.HistoryDigest, r.HistoryDigest) || !bytes.Equal(s.HyperDigest, r.HyperDigest) {
+								out.Violate("C07:diverges-from-never-crashed", fmt.Sprintf("after recovery, the snapshot of entry %d event %d differs from the never-crashed node's (version %d vs %d)", j, x, s.Version, r.Version), desc)
+								ok = false
+							}
 						}
 					}
 				}
-			}
-			if ok {
-				if fp := tablesFP(n.VStore()); fp != refFP {
-					out.Violate("C07:tables-differ-from-never-crashed", "after recovery and replay the stored tables differ from the never-crashed node's", desc)
-				}
-				// every snapshot acknowledged before the crash is still verifiable
-				last := refSnaps[m-1][len(refSnaps[m-1])-1]
-				for _, a := range acks {
-					if a.Already {
-						continue
+				if ok {
+					if fp := tablesFP(n.VStore()); fp != refFP {
+						out.Violate("C07:tables-differ-from-never-crashed", "after recovery and replay the stored tables differ from the never-crashed node's", desc)
 					}
-					ev, _ := hex.DecodeString(a.Event)
-					p, err := n.VBalloon().QueryDigestMembershipConsistency(hashing.Digest(ev), last.Version)
-					if err != nil || !p.DigestVerify(ev, &balloon.Snapshot{HistoryDigest: last.HistoryDigest, HyperDigest: last.HyperDigest}) || p.ActualVersion != a.Version {
-						out.Violate("C07:acknowledged-snapshot-unverifiable", fmt.Sprintf("version %d was acknowledged before the crash; after recovery its membership proof does not verify (err=%v)", a.Version, err), desc)
-						break
+					// every snapshot acknowledged before the crash is still verifiable
+					last := refSnaps[m-1][len(refSnaps[m-1])-1]
+					for _, a := range acks {
+						if a.Already {
+							continue
+						}
+						ev, _ := hex.DecodeString(a.Event)
+						p, err := n.VBalloon().QueryDigestMembershipConsistency(hashing.Digest(ev), last.Version)
+						if err != nil || !p.DigestVerify(ev, &balloon.Snapshot{HistoryDigest: last.HistoryDigest, HyperDigest: last.HyperDigest}) || p.ActualVersion != a.Version {
+							out.Violate("C07:acknowledged-snapshot-unverifiable", fmt.Sprintf("version %d was acknowledged before the crash; after recovery its membership proof does not verify (err=%v)", a.Version, err), desc)
+							break
+						}
 					}
 				}
+				out.Case(fmt.Sprintf("cp:%s:%d:%v", tag, k, after), true)
+				n.VCloseFSM()
+				os.RemoveAll(dir)
 			}
-			out.Case(fmt.Sprintf("cp:%d:%v", k, after), true)
-			n.VCloseFSM()
-			os.RemoveAll(dir)
 		}
+		out.Count("crash_points", points)
+		out.Sample(map[string]interface{}{"entries": m, "crash_points": points, "kind": "before/after each store write, then restart + replay from a random earlier entry"})
 	}
-	out.Count("crash_points", points)
-	out.Sample(map[string]interface{}{"entries": m, "crash_points": points, "kind": "before/after each store write, then restart + replay from a random earlier entry"})
 	// ---- real raft, SIGKILL at a random wall-clock instant, restart and log replay
 	kills := 2
 	if tier == "thorough" {
